@@ -323,3 +323,231 @@ def O6(vc):
                   and kw.get('registry') is registry and kw.get('group') is not None and Eq(kw.get('group'), group))
     vc.ensure('res.backbone_filled', len(fills) == 1 and fills[0][1] is scanned and fills[0][2] is True)
     return ('resource', 'revised')
+
+
+# ================================================================================================ O7 (bounded)
+def _ref_check(sel, r):
+    """Independent reading of docs/resources.rst for `does selector sel name resource r` (used as the specification of
+    Selector.check for the selector shapes of the O7 universe: group/version + one name, category, EVERYTHING)."""
+    if sel.group is not None and sel.group != r.group:
+        return False
+    if sel.version is not None and sel.version != r.version:
+        return False
+    if sel.version is None and not r.preferred:
+        return False
+    if sel.category is not None:
+        return sel.category in r.categories
+    if sel.kind is not None:
+        return sel.kind == r.kind
+    if sel.any_name is references.EVERYTHING:
+        return not (r.plural == 'events' and r.group in ('', 'events.k8s.io'))
+    return sel.any_name in (r.kind, r.plural, r.singular) or sel.any_name in r.shortcuts
+
+
+def _ref_specific(sel):
+    return sel.category is None and sel.any_name is not references.EVERYTHING
+
+
+def _ref_select(sel, rs):
+    got = {r for r in rs if _ref_check(sel, r)}
+    if _ref_specific(sel):
+        core = {r for r in got if r.group == ''}
+        got = core or got             # "v1 resources have priority over all other resources"
+    return got
+
+
+def _ids(rs):
+    return sorted(repr(r) for r in rs)
+
+
+@bounded('O7', targets=['kopf._core.reactor.observation.revise_resources', 'kopf._core.reactor.observation._disable_ambiguous_selectors',
+                        'kopf._core.reactor.observation._disable_mismatched_selectors',
+                        'kopf._core.reactor.observation._disable_unsuitable_resources',
+                        'kopf._cogs.structs.references.Selector.select', 'kopf._cogs.structs.references.Selector.check'],
+         props=['C19'],
+         clauses=['watched_are_selected_and_suitable', 'every_suitable_unambiguous_selection_watched', 'ambiguous_not_served',
+                  'ambiguous_not_served.overlapping', 'nonwatchable_not_served', 'nonpatchable_not_served_when_patching',
+                  'ambiguous_not_served.after_group_rescan', 'served_objects_are_fresh',
+                  'readonly_served_for_readonly_handlers', 'webhook_and_indexed_sets', 'other_groups_untouched',
+                  'warnings_not_crashes', 'disable_ambiguous.alone', 'disable_unsuitable.alone', 'disable_mismatched.alone',
+                  'select_matches_reference'],
+         universe='real references.Resource objects: pods.v1 (core), pods.v1beta1.metrics.k8s.io (list/get only), things.v1.example.com, '
+                  'things.v1.other.io (kind Item), items.v1.third.io (kind Item), readonlies.v1.example.com (list/watch, no patch), '
+                  'things.v2.example.com (non-preferred); every subset of them as the cluster content at the initial full scan '
+                  '(128) x 9 handler configurations (real Selector objects in the five registry sections), each followed by a '
+                  're-scan of group example.com with every possible new content of that group (8, fresh objects); exhaustive; the real revise_resources/_update_resources/_disable_*/'
+                  'Selector.select run, the registry is a stand-in returning the selector sets')
+def O7(b):
+    """
+    BOUNDED stand-in (real set algebra over real objects; a deductive variant of the verb rules is O7u).
+    observation.revise_resources + its three _disable_* helpers, against an independent reading of docs/resources.rst
+    ("Ambiguous resource selectors") and of the assignment's rules: after a (re)scan, within the scanned group(s),
+      * every watched resource is selected by some watching selector (event/index/spawning/changing), is listable and
+        watchable, and conversely every selected, suitable, unambiguously selected resource IS watched;
+      * a selector that names a specific resource and matches 2+ resources serves none of them (core v1 resources win
+        over others first; category / EVERYTHING selectors are never ambiguous);
+      * a resource lacking `list` or `watch` is never watched; one lacking `patch` is not watched when a state-keeping
+        (spawning/changing) selector selects it, and stays watched if only read-only (event/index) handlers exist;
+      * webhook / indexed sets are exactly the selected resources; resources of groups outside the rescan are untouched;
+      * a selector matching nothing or ambiguously yields a WARNING, never an exception.
+    """
+    import logging
+    from kopf._core.reactor import observation
+    R, S = references.Resource, references.Selector
+    FULL = frozenset({'get', 'list', 'watch', 'patch', 'create', 'delete'})
+
+    def mk(group, version, plural, kind, verbs=FULL, preferred=True, cats=(), shortcuts=()):
+        return R(group=group, version=version, plural=plural, kind=kind, singular=kind.lower(), shortcuts=frozenset(shortcuts),
+                 categories=frozenset(cats), subresources=frozenset(), namespaced=True, preferred=preferred, verbs=frozenset(verbs))
+    pool = [mk('', 'v1', 'pods', 'Pod', shortcuts=['po'], cats=['all']),
+            mk('metrics.k8s.io', 'v1beta1', 'pods', 'PodMetrics', verbs={'get', 'list'}),
+            mk('example.com', 'v1', 'things', 'Thing', cats=['mycat']),
+            mk('other.io', 'v1', 'things', 'Item', cats=['mycat']),
+            mk('third.io', 'v1', 'items', 'Item'),
+            mk('example.com', 'v1', 'readonlies', 'ReadOnly', verbs={'get', 'list', 'watch'}, cats=['mycat']),
+            mk('example.com', 'v2', 'things', 'Thing', preferred=False)]
+    E = frozenset()
+    # (webhooks, indexing, watching, spawning, changing)
+    configs = [
+        (E, E, {S('pods')}, E, E),
+        (E, E, E, E, {S('things')}),
+        (E, E, {S('things')}, {S(kind='Item')}, E),
+        (E, E, {S(category='mycat')}, E, E),
+        (E, E, {S(category='mycat')}, E, {S('example.com', 'things')}),
+        (E, {S('example.com', 'readonlies')}, {S('example.com', 'readonlies')}, E, {S('example.com', 'v2', 'things')}),
+        ({S('things')}, {S('pods.metrics.k8s.io')}, E, {S('example.com', 'readonlies')}, E),
+        (E, E, {S(references.EVERYTHING)}, E, E),
+        ({S('nonexistent')}, E, {S('nonexistent'), S('po')}, E, {S('third.io', 'items')}),
+    ]
+
+    class Section:
+        def __init__(self, sels): self.sels = frozenset(sels)
+        def get_all_selectors(self): return self.sels
+
+    class Capture(logging.Handler):
+        def __init__(self): super().__init__(); self.records = []
+        def emit(self, record): self.records.append(record)
+    cap = Capture()
+    observation.logger.addHandler(cap)
+    old_level = observation.logger.level
+    observation.logger.setLevel(logging.DEBUG)
+    try:
+        subsets = [list(c) for n in range(len(pool) + 1) for c in itertools.combinations(pool, n)]
+        n = 0
+        for ci, (wh, ix, ev, sp, ch) in enumerate(configs):
+            registry = Opaque('registry', _webhooks=Section(wh), _indexing=Section(ix), _watching=Section(ev),
+                              _spawning=Section(sp), _changing=Section(ch))
+            watching, patching = set(ix) | set(ev) | set(sp) | set(ch), set(sp) | set(ch)
+            for sel in set(wh) | watching:
+                for source in subsets[::7]:
+                    b.check('select_matches_reference', set(sel.select(source)) == _ref_select(sel, source)
+                            and sel.is_specific == _ref_specific(sel),
+                            lambda: dict(selector=repr(sel), source=_ids(source), got=_ids(sel.select(source)), want=_ids(_ref_select(sel, source))))
+            def check_state(insights, cluster, case, untouched=None):
+                """the insights against the true cluster state (what a full scan would report now)"""
+                W = insights.watched_resources
+                sel_by = {s: _ref_select(s, cluster) for s in watching}
+                selected = set().union(set(), *sel_by.values())
+                ambiguous = {s: c for s, c in sel_by.items() if _ref_specific(s) and len(c) >= 2}
+                amb_union = set().union(set(), *ambiguous.values())
+                overlapping = any(a is not c and (ambiguous[a] & ambiguous[c]) and ambiguous[a] != ambiguous[c]
+                                  for a in ambiguous for c in ambiguous)
+                nonwatchable = {r for r in selected if not {'list', 'watch'} <= r.verbs}
+                nonpatchable = {r for r in selected if 'patch' not in r.verbs} - nonwatchable
+                w = lambda: dict(config=ci, case=case, cluster=_ids(cluster), watched=_ids(W), selected=_ids(selected),
+                                 ambiguous={repr(s): _ids(c) for s, c in ambiguous.items()})
+                rescan = untouched is not None
+                b.check('watched_are_selected_and_suitable', all(r in selected and {'list', 'watch'} <= r.verbs for r in W), w)
+                b.check('nonwatchable_not_served', not (W & nonwatchable), w)
+                must_patch = {r for r in nonpatchable if any(r in _ref_select(s, cluster) for s in patching)}
+                b.check('nonpatchable_not_served_when_patching', not (W & must_patch), w)
+                if not must_patch:
+                    b.check('readonly_served_for_readonly_handlers', (nonpatchable - amb_union) <= W, w)
+                b.check('every_suitable_unambiguous_selection_watched',
+                        (selected - amb_union - nonwatchable - nonpatchable) <= W, w)
+                if overlapping:
+                    b.check('ambiguous_not_served.overlapping', not (W & amb_union), w, excuse='F-C19-4')
+                elif rescan:
+                    b.check('ambiguous_not_served.after_group_rescan', not (W & amb_union), w, excuse='F-C19-5')
+                else:
+                    b.check('ambiguous_not_served', not (W & amb_union), w)
+                b.check('webhook_and_indexed_sets',
+                        insights.webhook_resources == set().union(set(), *[_ref_select(s, cluster) for s in wh])
+                        and insights.indexed_resources == set().union(set(), *[_ref_select(s, cluster) for s in ix]), w)
+                if rescan:
+                    scope, before = untouched
+                    b.check('other_groups_untouched', all(any(r is p for p in before) for r in W if r.group != scope)
+                            and {r for r in W if r.group != scope} == {r for r in before if r.group != scope}, w)
+                    b.check('served_objects_are_fresh', all(any(r is c for c in cluster) for r in W), w)
+                return ambiguous, nonwatchable
+
+            def fresh(r):
+                return R(**{f: getattr(r, f) for f in r.__dataclass_fields__})
+            for source in subsets:
+                n += 1
+                insights = references.Insights.__new__(references.Insights)
+                for f in ('webhook_resources', 'indexed_resources', 'watched_resources'):
+                    object.__setattr__(insights, f, set())
+                cap.records.clear()
+                crashed = None
+                try:
+                    observation.revise_resources(group=None, insights=insights, registry=registry, resources=list(source))
+                except Exception as e:
+                    crashed = e
+                b.case(key=n, nontrivial=bool(source))
+                warned = [r for r in cap.records if r.levelno >= logging.WARNING]
+                if crashed is None:
+                    ambiguous, nonwatchable = check_state(insights, set(source), 'full scan')
+                b.check('warnings_not_crashes', crashed is None and (bool(warned) or not (ambiguous or nonwatchable)),
+                        lambda: dict(config=ci, source=_ids(source), crashed=repr(crashed)))
+                if crashed is not None:
+                    continue
+                # a CRD event of group example.com: that group is rescanned; its content may have changed meanwhile
+                scope = 'example.com'
+                mine = [r for r in pool if r.group == scope]
+                snap = {f: set(getattr(insights, f)) for f in ('webhook_resources', 'indexed_resources', 'watched_resources')}
+                for k in range(len(mine) + 1):
+                    for now in itertools.combinations(mine, k):
+                        n += 1
+                        for f, v in snap.items():
+                            object.__setattr__(insights, f, set(v))
+                        src = [fresh(r) for r in now]
+                        cluster = {r for r in source if r.group != scope} | set(src)
+                        try:
+                            observation.revise_resources(group=scope, insights=insights, registry=registry, resources=src)
+                        except Exception as e:
+                            b.check('warnings_not_crashes', False, lambda: dict(config=ci, source=_ids(src), crashed=repr(e)))
+                            continue
+                        b.case(key=n, nontrivial=True)
+                        check_state(insights, cluster, f'rescan of {scope}', untouched=(scope, snap['watched_resources']))
+        # the three helpers alone, on hand-picked states (their effect is also inside every case above)
+        A, Bm, T1, T2, I3, RO, T1v2 = pool
+        for base in subsets:
+            rs = set(base)
+            sels = frozenset({S('things'), S(kind='Item'), S(category='mycat'), S('pods')})
+            before = set(rs)
+            observation._disable_ambiguous_selectors(resources=rs, selectors=sels)
+            amb = {s: _ref_select(s, before) for s in sels if _ref_specific(s) and len(_ref_select(s, before)) >= 2}
+            union = set().union(set(), *amb.values())
+            b.check('disable_ambiguous.alone', rs <= before and (before - union) <= rs
+                    and all(len(_ref_select(s, rs)) <= 1 for s in sels if _ref_specific(s)),
+                    lambda: dict(before=_ids(before), after=_ids(rs), ambiguous={repr(s): _ids(c) for s, c in amb.items()}))
+            for psel in (frozenset(), frozenset({S('example.com', 'readonlies')}), frozenset({S('things')})):
+                rs = set(base)
+                observation._disable_unsuitable_resources(resources=rs, selectors=psel)
+                nonw = {r for r in base if not {'list', 'watch'} <= r.verbs}
+                nonp = {r for r in base if 'patch' not in r.verbs} - nonw
+                need = any(_ref_select(s, nonp) for s in psel)
+                b.check('disable_unsuitable.alone', rs == set(base) - nonw - (nonp if need else set()),
+                        lambda: dict(before=_ids(base), after=_ids(rs), patching=[repr(s) for s in psel]))
+            rs = set(base)
+            cap.records.clear()
+            observation._disable_mismatched_selectors(resources=rs, selectors=sels)
+            unresolved = [s for s in sels if not _ref_select(s, base)]
+            warned = [r for r in cap.records if r.levelno >= logging.WARNING]
+            b.check('disable_mismatched.alone', rs == set(base) and bool(warned) == bool(unresolved)
+                    and all(repr(s) in warned[0].getMessage() for s in unresolved),
+                    lambda: dict(before=_ids(base), unresolved=[repr(s) for s in unresolved], warned=[r.getMessage() for r in warned]))
+    finally:
+        observation.logger.removeHandler(cap)
+        observation.logger.setLevel(old_level)
